@@ -14,32 +14,48 @@ GENERATED = []
 SOURCES = ["src/allmydata/storage_client.py", "src/allmydata/util/hashutil.py", "src/allmydata/mutable/publish.py",
            "src/allmydata/grid_manager.py"]
 DESIGN_REF = "DESIGN.md §2 C32"
-TECHNIQUE = ("Lean 4 theorems over an executable model of StorageFarmBroker.get_servers_for_psi and Publish.update_goal; differential "
-             "correspondence on real StorageFarmBroker objects configured through tahoe.cfg text (StorageClientConfig.from_node_config), "
-             "populated with real NativeStorageServer objects from announcements carrying really signed grid-manager certificates; monitor: "
-             "two brokers with different insertion orders agree, order = preferred first then SHA-1(psi+seed), upload filter = valid certificate")
-LEVEL_TEXT = ("order_is_function_of_set, preferred_first, upload_only_permitted, publish_goal_only_permitted proved in Lean for all server "
-              "lists; the model is tied to storage_client.py / publish.py by comparing get_servers_for_psi (both for_upload values) of two "
-              "brokers with shuffled insertion orders and Publish.update_goal results on seeded server sets, preferred lists, storage "
-              "indexes and certificate sets.")
-LEVEL_NOTE = ("Lean kernel + standard axioms; SHA-1 digests are computed by Python (hashlib) and passed as sort keys; upload_permitted is "
-              "an input of the model, set by the harness from the certificate construction metadata (C33's documented predicate); the "
-              "preferred list modelled is the repaired one (fixes/C32-preferred-bytes.diff).")
+TECHNIQUE = ("Lean 4 theorems over executable models of StorageFarmBroker.get_servers_for_psi (with SHA-1 of storage index + seed computed in "
+             "Lean), of the broker's announcement table (_got_announcement: latest announcement per server id) composed with the C33 "
+             "certificate verifier, and of Publish.update_goal; differential correspondence on real StorageFarmBroker / NativeStorageServer / "
+             "Publish objects configured through tahoe.cfg text (StorageClientConfig.from_node_config) with really signed grid-manager "
+             "certificates, as histories on long-lived objects under a stepping clock and as re-announcement histories through the real "
+             "_got_announcement; monitor written from the statement (two brokers agree; preferred first then SHA-1(psi+seed); upload list = "
+             "servers whose latest announcement holds a currently valid certificate)")
+LEVEL_TEXT = ("14 theorems in Tahoe.Props.C32, for all server lists, preferred lists, storage indexes, announcement histories, keys and times: "
+              "order_is_function_of_set, preferred_is_a_set, order_is_function_of_psi_and_seeds (same order for every client), preferred_first, "
+              "ordered_by_sha1_of_psi_and_seed (preferred first, then SHA-1 of storage index + seed), upload_only_permitted, "
+              "upload_filter_applies_to_preferred, upload_candidates_hold_valid_certificate_now, currently_valid_server_is_offered, "
+              "broker_holds_latest_announcement, upload_set_depends_only_on_latest, upload_candidates_follow_latest_announcement (uploads only "
+              "to servers that currently hold a valid certificate, end to end over certificates, time and re-announcements), "
+              "publish_goal_only_permitted, publish_new_shares_only_permitted (mutable publish).  Tied to storage_client.py / publish.py / "
+              "hashutil.py by the driver ops psi, psib (SHA-1 computed by the model), hist (announcement histories) and goal on every query of "
+              "the seeded histories.")
+LEVEL_NOTE = ("Lean kernel + standard axioms only.  SHA-1 is the executable Tahoe/Base/Sha256.lean implementation (FIPS vectors as #guard, "
+              "compared with the code on every psib line); that Python's lexicographic order on equal-length digests is the order of the "
+              "big-endian numbers is assumed.  The certificate verdict is C33's model (Ed25519 symbolic, JSON/ISO-8601 parsing a parameter). "
+              "The peers.preferred defect found here (configured ids kept as str) is repaired in /repo (fixes/C32-preferred-bytes.diff, "
+              "committed).  Not covered: connection management (is_connected is an input), HTTPNativeStorageServer, the immutable "
+              "uploader's own use of the list, equal sort keys (order then follows the frozenset iteration order; reproduced, no theorem).")
 RULE = ("seeded HISTORIES on long-lived objects: two real StorageFarmBroker objects (same server set, different insertion order, tahoe.cfg "
         "preferred list and grid-manager keys) and their NativeStorageServer objects are queried repeatedly (upload_permitted, "
         "get_servers_for_psi with both for_upload values and fresh storage indexes, Publish.update_goal) while a patched clock steps "
         "forward across every certificate expiry instant (one microsecond before, exactly at, one microsecond after, and beyond); every "
-        "answer is compared with the documented predicate at the current time and with the driver; a case is one call; distinct = distinct "
-        "(driver line, clock value); non-trivial = at least two servers are connected.  Plus announcement HISTORIES through the real "
-        "StorageFarmBroker._got_announcement: the same server ids re-announce with changed certificate lists (dropped / expired / "
-        "foreign-signed / newly gained / renewed; FURL, NURLs and seed unchanged) and after every step the full order, the upload order, "
-        "every upload_permitted() and update_goal are compared with the model evaluated on each server's LATEST announcement")
-TRUSTED = ["lean/Tahoe/StorageClient/Model.lean is a hand transcription of get_servers_for_psi and update_goal (sorted() modelled as stable insertion sort)",
-           "hashlib.sha1 for the `psi` lines (digest handed to the model); the `psib` lines hand over storage index and seeds and the model computes SHA-1 itself (Tahoe/Base/Sha256.lean), so both are compared with hashutil.permute_server_hash through the code's own order",
+        "answer is compared with the documented predicate at the current time and with the driver (psi: digest handed over, psib: SHA-1 "
+        "computed by the model); a case is one call; distinct = distinct (driver line, clock value); non-trivial = at least two servers are "
+        "connected.  Plus announcement HISTORIES through the real StorageFarmBroker._got_announcement: the same server ids re-announce with "
+        "changed certificate lists (dropped / expired / foreign-signed / other server's / tampered / newly gained / renewed; FURL, NURLs and "
+        "seed unchanged) and after every step the full order, the upload order, every upload_permitted() and update_goal are compared with "
+        "the model evaluated on each server's LATEST announcement (hist lines).  A fixed corpus (preferred peers from tahoe.cfg, expiry "
+        "walk, preferred + share-holding server losing its certificate, two re-announcement histories) runs first; VERIF_CORPUS_ONLY=1 runs "
+        "only that")
+TRUSTED = ["lean/Tahoe/StorageClient/Model.lean, Upload.lean, Permute.lean are hand transcriptions of get_servers_for_psi, _got_announcement / _make_storage_server / upload_permitted and update_goal (sorted() modelled as a stable insertion sort)",
+           "hashlib.sha1 for the psi lines (digest handed to the model); on the psib lines the model computes SHA-1 itself, so Tahoe/Base/Sha256.lean is compared with hashutil.permute_server_hash through the code's own order",
+           "the symbolic certificate tokens of the hist lines are produced by harness/props/c33.py (Tokeniser / classify)",
            "the iteration order of the frozenset of connected servers is read back from get_connected_servers() (only matters for equal sort keys)"]
-ASSUMPTIONS = ["servers are added through StorageFarmBroker.test_add_rref / _make_storage_server (no Tub can be created in this sandbox: pyOpenSSL lacks X509Req), so connection management is not exercised",
+ASSUMPTIONS = ["servers enter through StorageFarmBroker.test_add_rref / _make_storage_server, or through _got_announcement with a stand-in Tub (no Tub can be created in this sandbox: pyOpenSSL lacks X509Req), and are marked connected the way test_add_rref does; connection management is not exercised",
                "the clock is allmydata.grid_manager.current_datetime_with_zone, replaced by a stepping clock for the duration of the run (the broker passes no now_fn, so this is the clock the verifiers read); certificates have no not-before field, so a server cannot become permitted later without a new announcement",
-               "Publish objects are built with Publish.__new__ and only the attributes update_goal reads"]
+               "Publish objects are built with Publish.__new__ and only the attributes update_goal reads",
+               "Ed25519 and JSON / ISO-8601 parsing as in C33 (explicit hypothesis / parameter of the model)"]
 
 FURL = "pb://62ubehyunnyhzs7r6vdonnm2hpi52w6y@127.0.0.1:1/x"
 T0 = datetime(2030, 1, 1, 12, 0, 0, tzinfo=timezone.utc)
